@@ -143,10 +143,28 @@ def kani_codegen(harnesses, features, workdir):
             for f in files:
                 if f.startswith("zv-") and f.endswith(".kani-metadata.json"):
                     mds.append(os.path.join(root, f))
-        mds.sort(key=os.path.getmtime)
-        md = json.load(open(mds[-1]))
+        # several metadata files live side by side (one per feature set / harness selection). An up-to-date build
+        # is not rewritten by cargo, so "the newest file" may belong to another property: take the newest one that
+        # lists every requested harness and whose goto files exist
+        mds.sort(key=os.path.getmtime, reverse=True)
+        want = {h["name"] for h in harnesses}
+        md = None
+        for cand in mds:
+            try:
+                c = json.load(open(cand))
+            except Exception:
+                continue
+            have = {ph["pretty_name"].split("::")[-1]: ph for ph in c.get("proof_harnesses", [])}
+            if want <= set(have) and all(os.path.exists(have[n]["goto_file"]) for n in want):
+                md = c
+                break
+        if md is None:
+            log("BUILD PROBLEM: no kani metadata lists all requested harnesses")
+            return None, time.time() - t0
         for ph in md["proof_harnesses"]:
             nm = ph["pretty_name"].split("::")[-1]
+            if nm not in want:
+                continue
             dst = os.path.join(workdir, nm + ".symtab.out")
             shutil.copyfile(ph["goto_file"], dst)
             out[nm] = dict(symtab=dst, mangled=ph["mangled_name"], unwind=ph["attributes"]["unwind_value"],
@@ -244,6 +262,10 @@ def verify_one(h, art, workdir, cap_t, cap_mem):
     ]
     for c in prep:
         rc, to, _ = run_stage(name, c, lg, cap_t, cap_mem)
+        if rc == -999:
+            res["reason"] = "killed by the runner's watchdog: the machine was about to run out of memory (other jobs)"
+            res["wall_s"] = time.time() - t0
+            return res
         if rc != 0:
             res["reason"] = f"prep stage failed rc={rc}: {' '.join(c[:3])}"
             res["wall_s"] = time.time() - t0
